@@ -57,13 +57,33 @@ def funptr_copy_rule(run, prog, RULE):
             txt = txt.replace(nm + "->", "$->")
         return txt.replace("0x0f", "15").replace("FP_MASK", "15")
 
+    def expand(f, e, depth=0, keep=()):
+        """copy of e with locals that have a single definition replaced by it (short type = funptr->hdr.type)"""
+        if not isinstance(e, dict) or depth > 3:
+            return e
+        if e.get("k") == "Ref" and e.get("d") == "local" and e.get("id") is not None and e.get("n") not in keep:
+            defs = [n2["R"] for b2, i2, n2 in f.nodes() if n2.get("k") == "Asg" and strip(n2["L"]).get("k") == "Ref" and strip(n2["L"]).get("id") == e["id"]]
+            defs += [v["init"] for b2, i2, n2 in f.nodes() if n2.get("k") == "Decl" for v in n2.get("vars", ()) if v.get("id") == e["id"] and isinstance(v.get("init"), dict)]
+            if len(defs) == 1:
+                return expand(f, strip(defs[0]), depth + 1, keep)
+            return e
+        out = {}
+        for k, v in e.items():
+            if isinstance(v, dict):
+                out[k] = expand(f, v, depth, keep)
+            elif isinstance(v, list):
+                out[k] = [expand(f, x, depth, keep) if isinstance(x, dict) else x for x in v]
+            else:
+                out[k] = v
+        return out
+
     def guard_texts(f, blk_id, names, skip_blocks=()):
         out = set()
         for c, t, B in cfgq.guards(f, blk_id):
             if B in skip_blocks:
                 continue
             c0, t0 = normalize_cond(c, t)
-            out.add((norm(show(strip(c0)), names), t0))
+            out.add((norm(show(strip(expand(f, strip(c0), 0, tuple(names)))), names), t0))
         return out
     dparam = [p.get("n") for p in (df.params or [])]
     rel_func = None
@@ -145,9 +165,29 @@ def check(run, prog, tier):
             return blk.id in give_up if give_up else (f.exit in blk.live_succ() and not blk.nr)
         for fld, (callees, note) in fields.items():
             rel_blocks = []
+            # locals loaded from the field (object_t *owner = fp->hdr.owner; sentence_t *s = ob->sent): releasing the local
+            # releases the field, and a null test of the local is the field's own null test
+            fa = set()
+            for b, i, n in f.nodes():
+                if n.get("k") == "Asg" and n.get("op") == "=" and strip(n["L"]).get("k") == "Ref" and strip(n["L"]).get("d") == "local":
+                    r0 = strip(n["R"])
+                    if r0.get("k") == "Mem" and r0.get("f") == fld and (show(r0).endswith("->" + fld) or show(r0).endswith("." + fld)):
+                        fa.add(strip(n["L"]).get("id"))
+                elif n.get("k") == "Decl":
+                    for v in n.get("vars", ()):
+                        r0 = strip(v.get("init")) if isinstance(v.get("init"), dict) else {}
+                        if r0.get("k") == "Mem" and r0.get("f") == fld and (show(r0).endswith("->" + fld) or show(r0).endswith("." + fld)):
+                            fa.add(v.get("id"))
+            fa.discard(None)
+
+            def is_fld(e):
+                e = strip(e)
+                if e.get("k") == "Bin" and e.get("op") in ("!=", "==") and const_val(e["R"]) == 0:
+                    e = strip(e["L"])
+                return (e.get("k") == "Mem" and (show(e).endswith("->" + fld) or show(e).endswith("." + fld))) or (e.get("k") == "Ref" and e.get("id") in fa)
             for b, i, n in f.nodes():
                 if n.get("k") == "Call" and n.get("fn") in callees:
-                    direct = any(("->" + fld in show(a)) or ("." + fld in show(a)) for a in n.get("args", []))
+                    direct = any(("->" + fld in show(a)) or ("." + fld in show(a)) or (strip(a).get("k") == "Ref" and strip(a).get("id") in fa) for a in n.get("args", []))
                     # released through a local walked from the field: the call sits under the field's own non-NULL test
                     under = any(t and strip(c).get("k") == "Mem" and (show(strip(c)).endswith("->" + fld) or show(strip(c)).endswith("." + fld)) for c, t, B in cfgq.guards(f, b.id))
                     if direct:
@@ -164,8 +204,11 @@ def check(run, prog, tier):
                     continue
                 e, t = normalize_cond(c, True)
                 e = strip(e)
+                if e.get("k") == "Bin" and e.get("op") in ("!=", "==") and const_val(e["R"]) == 0:
+                    t = t if e["op"] == "!=" else not t
+                    e = strip(e["L"])
                 txt = show(e)
-                if e.get("k") == "Mem" and (txt.endswith("->" + fld) or txt.endswith("." + fld) or ("->" + fld + ".") in txt):
+                if (e.get("k") == "Mem" and (txt.endswith("->" + fld) or txt.endswith("." + fld) or ("->" + fld + ".") in txt)) or (e.get("k") == "Ref" and e.get("id") in fa):
                     s = f.blocks[bid].succ[1] if t else f.blocks[bid].succ[0]
                     if s is not None:
                         bypass.add((bid, s))
